@@ -13,3 +13,4 @@ import OapiVerif.Props.C02
 import OapiVerif.Props.C08
 import OapiVerif.Props.C19
 import OapiVerif.Props.C20
+import OapiVerif.Props.C18
